@@ -20,7 +20,7 @@
    (bij_wf) under which corresponding objects have the same type and non-reference data and
    corresponding references (simulates), and which relates the two roots (rel_ref). *)
 From Fiddle Require Import PyBase PySlice Sig ArgStore PyCall Heap Traverse Build Build_stmt
-  Iso_proofs C02Check Lang Lang_proofs Anchors.
+  Iso_proofs C02Check Lang Lang_proofs AnchorsBuild.
 From Coq Require Import List.
 Import ListNotations.
 Local Open Scope nat_scope.
